@@ -11,6 +11,11 @@ declared in a generated .pyi, vs bind_pytd; (c) the property oracle straight on 
 CPython TypeError iff pytype error at that line, and equal bindings on success (for stubs: what a stub lets
 one observe).  Listed findings: `posonly-name-as-keyword-with-kwargs` (source functions, repaired in /repo),
 `stub-posonly-name-keyword-dropped-from-kwargs`, `stub-keyword-named-like-argname-placeholder`.
+Extension (coq/Bind/SplatModel.v, harness/props/c13_splat.py): call sites with * / ** splats (bind_px = Args.simplify /
+_unpack_and_match_args + the starargs / starstarargs branches of _map_args), calls reached through helper frames up to the
+depth limit (call_at_depth), forwarding / partial-application lambdas, unbound method access.  Findings of that part:
+`dict-splat-repeats-keyword-not-reported`, `splat-with-keyword-naming-posonly-parameter-reported-missing`,
+`arguments-after-indefinite-splat-counted-as-too-many`.
 """
 import collections
 import json
@@ -21,6 +26,7 @@ import time
 
 import common
 import c13_gen as g
+import c13_splat as sx
 
 KNOWN_FP = "posonly-name-as-keyword-with-kwargs"
 
@@ -124,9 +130,11 @@ def chunk(items, max_lines=330):
   groups, cur, n = [], [], 0
   for it in items:
     shapes = it[2]
-    # a callee with very many shapes is split over several modules
-    for i in range(0, max(1, len(shapes)), max_lines):
-      part = (it[0], it[1], shapes[i:i + max_lines])
+    # a callee with very many shapes is split over several modules; a class is instantiated at most 32 times
+    # (beyond ~40 constructor calls of one class in a module pytype widens the attribute read back to Any)
+    per = 32 if it[1].startswith("ctor:") else max_lines
+    for i in range(0, max(1, len(shapes)), per):
+      part = (it[0], it[1], shapes[i:i + per])
       if cur and n + len(part[2]) > max_lines:
         groups.append(cur); cur, n = [], 0
       cur.append(part); n += len(part[2])
@@ -315,10 +323,29 @@ def run(res):
               "the real CPython call as ground truth.  "
               "Every argument and default is an instance of its own marker class, so the parameter->argument mapping is "
               "observable as the revealed type of the returned parameter tuple, one call per line.  A case is non-trivial if "
-              "the def has a parameter and the call an argument; distinct by (variant, def, call).")
+              "the def has a parameter and the call an argument; distinct by (variant, def, call).  "
+              "Splat legs (c13_splat.py): random defs from the same 756 small defs x call sites built from plain arguments, "
+              "splats of tuple / list literals with 0-3 elements, indefinite splats (lists of unknown length, mostly in last "
+              "position), plain keywords, ** dict literals (also empty, also repeating a keyword), a non-concrete ** dict; "
+              "callees: functions, lambdas, bound and unbound methods, class / static methods, constructors; reached "
+              "directly, through 1-4 helper frames (4 = the depth limit of module-level code), through a forwarding lambda "
+              "(lambda *a, **k: f(*a, **k)) or a partial-application lambda (lambda *a, **k: f(p0, *a, **k)).  quick: "
+              "110 concrete-splat + 160 indefinite + 110 helper-depth + 60 access-form cases + corpus/C13/splat; thorough: "
+              "900 + 1200 + 700 + 500.")
   res.assumptions = [
-      "call sites without * / ** splats, every argument visible at the call (has_visible_namedarg = True)",
+      "every argument visible at the call (has_visible_namedarg = True)",
       "unannotated parameters (match_args is skipped; annotated functions re-derive callargs from annotations)",
+      "call sites with * / ** splats (interpreter functions only; stub callees keep the no-splat restriction): the 3.12 "
+      "compiler's CALL_FUNCTION_EX sequence and the VM's list building (LIST_EXTEND keeps concrete tuples / lists element by "
+      "element and indefinite iterables as Splat entries, LIST_APPEND after a splat collapses everything into one indefinite "
+      "splat) are modelled by site_items and validated by the correspondence only; element TYPES of splats are not compared, "
+      "only which argument / splat a parameter is fed from",
+      "indefinite splats and non-concrete ** dicts: the CPython side tries every length 0..#positional parameters+1 for one "
+      "splat (a sample of the products for several) and the key sets {}, {one parameter or foreign name}, {all still "
+      "required names}; 'no false positive' is judged on those instantiations",
+      "call depth: module-level calls under analyze.INIT_MAXIMUM_DEPTH = 4 (the model's limit is that constant; a changed "
+      "constant shows up as a correspondence failure); per-function re-analysis with unknown arguments reports nothing at "
+      "the generated call lines",
       "functions defined in the analysed source (SignedFunction._map_args -> bind_py / bind_py_fixed) and single-signature "
       "stub functions (PyTDSignature._map_args + _fill_in_missing_parameters -> bind_pytd); overloaded stubs are not modelled",
       "a stub has no body: for stub callees the outcome, the error class and the parameter it names are compared, and "
@@ -341,7 +368,7 @@ def run(res):
   n_total = len(model)
 
   nw = min(8, max(2, common.NCPU // 2)) if thorough else 4
-  soft, hard = (700.0, 2400.0) if thorough else (36.0, 600.0)   # optional modules stop at soft; required ones must finish
+  soft, hard = (640.0, 2400.0) if thorough else (28.0, 600.0)   # optional modules stop at soft; required ones must finish
   t0 = time.time()
   ctx = multiprocessing.get_context("fork")
   done = []
@@ -488,6 +515,9 @@ def run(res):
   res.obligation("cases-separate-the-two-variants", n_sep > 0,
                  "%d explored cases on which bind_py and bind_py_fixed differ" % n_sep)
 
+  # call sites with * / ** splats, calls through helper frames / forwarding lambdas / unbound access
+  sx.run_legs(res, exe, common.rng(res.seed, "c13-splat"), thorough, fixed=(n_fx <= n_un))
+
   # the oracle's verdicts
   size = lambda c: (len(g.names_v(c[0], c[1])) + c[2][0] + len(c[2][1]), c[1] != "func")
   if oracle_known:
@@ -540,6 +570,8 @@ def common_coqchk(pid):
 def replay(res, path):
   common.bootstrap_pytype()
   d = json.load(open(path))["replay"]
+  if d.get("kind") == "splat":
+    return sx.replay(d, model_exe())
   sig, variant, sh = sig_from_json(d["sig"]), d["variant"], (int(d["shape"][0]), tuple(d["shape"][1]))
   real, py = observe_one(sig, variant, sh)
   print("def   :", g.params_text(sig, variant), " [%s]" % variant)
